@@ -59,9 +59,9 @@ func ConstsOf(p *types.Package, named types.Type) []*types.Const {
 type Switch struct {
 	Node      ast.Stmt
 	IsType    bool
-	TagType   types.Type    // static type of the tag / asserted operand
-	Tag       ast.Expr      // nil for tagless
-	CaseTypes []types.Type  // type switch
+	TagType   types.Type   // static type of the tag / asserted operand
+	Tag       ast.Expr     // nil for tagless
+	CaseTypes []types.Type // type switch
 	CaseVals  []constant.Value
 	CaseExprs []ast.Expr
 	NilCase   bool
